@@ -277,7 +277,8 @@ def draw_order(data, tier):
     case['terms1'] = HG.draw_hamiltonian(data, case['fam'], case['N'], tier, complex_ok=False)
     case.update({'T': data.draw(st.sampled_from([0.4, 0.8])), 'dt': data.draw(st.sampled_from([0.2, 0.4, 0.1])),
                  'omega': data.draw(st.sampled_from([3.0, 5.0, 2.0])), 'gauge': 'first', 'factor': 1,
-                 'frac': data.draw(st.sampled_from([0.3, 0.0, 0.3, 0.4]))})    # requested dt = T / (k - frac): does not divide the interval
+                 'frac': data.draw(st.sampled_from([0.3, 0.0, 0.3, 0.4])),     # requested dt = T / (k - frac): does not divide the interval
+                 'refine': data.draw(st.sampled_from(['dt', 'grid', 'grid_fixed_dt']))})   # how the actual step is refined (see execute_order)
     return case
 
 
@@ -315,28 +316,44 @@ def execute_order(case):
         # dt = T / k is turned into the request T / (k - frac) (0 <= frac < 0.5): tdvp_ must still take k equal steps of T / k,
         # also after halving (2k - frac rounds up to 2k), and evaluate H(t) at the mid-points of the steps it actually takes
         k = max(1, int(round(T / dt)))
-        req = T / (k - frac) if k - frac > 0 else dt
         psi = psi0.copy()
         Ht = lambda t: [H0, f(t) * H1]
-        for out in mps.tdvp_(psi, Ht, times=(0, T), dt=req, u=1j, method=case['method'], order=case['order'],
+        refine = case.get('refine', 'dt')
+        if refine == 'dt':
+            req, times, per = (T / (k - frac) if k - frac > 0 else dt), (0, T), k
+        else:
+            # the step is refined through the snapshot grid: k snapshots, each reached in ONE step because the requested dt is larger than
+            # the spacing (1.7 x spacing, or a fixed 10 T); "dt is adjusted down to reach the next snapshot", so the scheme must still
+            # converge at its order in the actual step T / k
+            times, per = tuple(T * j / k for j in range(k + 1)), 1
+            req = 1.7 * T / k if refine == 'grid' else 10.0 * T
+        for out in mps.tdvp_(psi, Ht, times=times, dt=req, u=1j, method=case['method'], order=case['order'],
                              opts_expmv={'hermitian': True, 'tol': 1e-13}, opts_svd={'tol': 1e-14}, normalize=True):
             if out.time_independent is not False:
                 raise Violation('tdvp:time_independent_flag', f'{out} for a callable H')
-            if out.steps != k or abs(out.dt - T / k) > 1e-12:
-                raise Violation('tdvp:steps_dt', f'requested dt = {req} on an interval {T}: {out.steps} steps of {out.dt}, expected {k} steps of {T / k}')
+            if out.steps != per or abs(out.dt - T / k) > 1e-12:
+                raise Violation('tdvp:steps_dt', f'requested dt = {req} towards the next snapshot of {times[:3]}...: {out.steps} steps of {out.dt}, expected {per} steps of {T / k}')
         return np.linalg.norm(G.mps_dense(psi, sp) - ref)
 
     p = 2 if case['order'] == '2nd' else 4
-    labels = ['order:' + case['order'], 'method:' + case['method'], 'dt_divides_interval' if frac == 0 else 'dt_does_not_divide_interval']
+    labels = ['order:' + case['order'], 'method:' + case['method'], 'dt_divides_interval' if frac == 0 else 'dt_does_not_divide_interval', 'refine:' + case.get('refine', 'dt')]
     # step sizes dt, dt/2, dt/4, ...: the first one whose error enters the window [1e-6, 1e-3] is compared with its half; a low ratio
     # must be confirmed by the next halving (two consecutive ratios below 2^(p-1/2)) before it counts, which keeps pre-asymptotic
     # flukes at coarse steps from raising an alarm
     dt, e0 = case['dt'], None
+    hist = []
     for _ in range(7):
         e0 = err_at(dt)
+        hist.append(e0)
         if e0 <= 1e-3:
             break
         dt = dt / 2
+    if e0 > 1e-3 and len(hist) >= 3:
+        # the window was not reached after 6 halvings (>= 128 steps): a scheme of order p would be far below 1e-3 by now; if the last two
+        # halvings both gained less than 2^(p-1/2) the error does not decrease at the stated order
+        r1, r2 = hist[-3] / hist[-2], hist[-2] / hist[-1]
+        if r1 < 2 ** (p - 0.5) and r2 < 2 ** (p - 0.5):
+            raise Violation(f"tdvp:order:{case['order']}", f'after {len(hist) - 1} halvings of the step (refinement: {case.get("refine", "dt")}) the error is still {e0:.3e}; last ratios {r1:.2f}, {r2:.2f} (expected ~ {2 ** p})')
     if not (1e-6 <= e0 <= 1e-3):
         return Res(labels=labels + ['order_skipped_outside_window'], nontrivial=False)
     e1 = err_at(dt / 2)
